@@ -324,3 +324,57 @@ def r08p(model: Model, rr: RuleResult):
     for m in ("write_font", "svg", "color_glyph", "bitmap_tables"):
         if any("parts" in v for v in model.mod(m).imports.values() if v.startswith("nanoemoji.")) and m != "write_font":
             rr.bad(model.mod(m), model.mod(m).tree, f"{m} imports nanoemoji.parts", construct=f"{m}: import parts")
+
+
+@RULES.rule("C08", "R08f", "glyph map rows keep the driver's (absolute-path sorted) source order; workers do not re-sort build-dir-relative file names", floor=2)
+def r08f(model: Model, rr: RuleResult):
+    """The driver sorts sources by absolute path and hands them to the glyph-map step as paths relative to the build directory (and through
+    first-come 1/, 2/ sub-directories).  Sorting those spellings again makes glyph order depend on where the build directory is and on which
+    configuration came first."""
+    n = 0
+    for mname in ("write_glyphmap", "write_fea", "write_glyphmap_for_glyph_svgs"):
+        mod = model.mod(mname)
+        for fi in mod.functions.values():
+            cfg = cfg_of(fi)
+            for c in calls_in(fi, nested=True):
+                is_sorted = isinstance(c.func, ast.Name) and c.func.id == "sorted" and c.args
+                is_sort = isinstance(c.func, ast.Attribute) and c.func.attr == "sort"
+                if not (is_sorted or is_sort):
+                    continue
+                operand = c.args[0] if is_sorted else c.func.value
+                try:
+                    at = cfg.node_for(c)
+                    names, exprs = expr_closure(cfg, at, operand)
+                except Exception:
+                    names, exprs = {x.id for x in ast.walk(operand) if isinstance(x, ast.Name)}, [operand]
+                from_argv = bool(names & {"argv", "input_files", "filename", "filenames"}) or any("FLAGS." in norm(e) for e in exprs)
+                if any(isinstance(x, ast.Call) and callee_tail(x) in ("parse_csv", "load_from", "load", "read_text", "TTFont", "open", "getGlyphOrder") for e in exprs for x in ast.walk(e)):
+                    from_argv = False  # ordering by the *content* of an input file, not by how files are spelled
+                key = kwarg(c, "key")
+                keyt = norm(key) if key is not None else ""
+                elt = " ".join(norm(e) for e in exprs)
+                absolute = "abspath" in keyt or "resolve" in keyt or "abspath(" in elt or ".resolve()" in elt
+                by_content = any(k in keyt for k in ("stem", "codepoints", "glyph_name", "int("))
+                n += 1
+                if from_argv and not absolute and not by_content:
+                    rr.bad(fi, c, f"{short(c, 70)} orders file names as they are spelled on the command line (relative to the build directory, through first-come "
+                           f"1/, 2/ sub-directories): the glyph order then changes with the location of the build dir and the order of configurations",
+                           construct=f"{mname}.{fi.qualname}: sorted() over argv-relative paths")
+                else:
+                    rr.ok(f"{mname}.{fi.qualname}: {short(c, 60)} does not order by build-dir-relative spelling")
+    gfi = model.func("write_glyphmap", "_glyphmappings")
+    loops = [st for st in walk_body(gfi) if isinstance(st, ast.For)]
+    first = loops[0] if loops else None
+    if first is not None and norm(first.iter) == gfi.params[0]:
+        rr.ok("_glyphmappings consumes input_files in the order given; dicts keep insertion order")
+    elif first is not None:
+        gcfg = cfg_of(gfi)
+        names, exprs = expr_closure(gcfg, gcfg.node_for(first), first.iter)
+        if any(isinstance(x, ast.Call) and norm(x.func) in ("sorted", "set", "frozenset", "reversed") for e in exprs for x in ast.walk(e)):
+            rr.bad(gfi, first, f"_glyphmappings iterates {short(first.iter, 60)}, not the input list as given: rows (= glyph order) follow the spelling of the paths",
+                   construct="_glyphmappings: input order not kept")
+        else:
+            rr.ok(f"_glyphmappings iterates {short(first.iter, 50)}")
+    mfi = model.func("write_glyphmap", "main")
+    if any(callee_tail(c) == "_glyphmappings" and c.args and isinstance(c.args[0], ast.Name) for c in calls_in(mfi)):
+        rr.ok("main passes the expanded response file list on as it is")
